@@ -43,6 +43,12 @@ class Prop(common.PropertyCheck):
                 spec['order'] = 'DTA'
                 spec['pad_data'] = 0
             yield spec
+        # a keyword segment is the last thing in the file and its last value ends with an (escaped) delimiter: every cut, also by one byte, is refused
+        base = {'version': 'FCS3.0', 'delim': '/', 'datatype': 'I', 'byteord': '1,2,3,4', 'widths': [8, 16], 'ranges': [256, 1024],
+                'events': [[1, 2], [3, 4], [250, 1000]], 'placement': 'header', 'text_offsets_too': True, 'end_conv': 'last', 'pad_text': 0, 'pad_data': 0, 'pad_after': 0}
+        yield dict(base, order='DT', extra=[['RUNDIR', 'runs/b7/']])
+        yield dict(base, order='TDS', stext=[['SK0', 'sv0'], ['SDIR', 'out/x/']], extra=[['K', 'v']])
+        yield dict(base, version='FCS3.1', delim='|', order='DT', extra=[['NOTE', 'a|b|']])
 
     def gen_cases(self):
         rng = self.rng
